@@ -177,6 +177,10 @@ struct coap_context_t {
 #ifdef COAP_EPOLL_SUPPORT
   int epfd;                        /**< External FD for epoll */
   int eptimerfd;                   /**< Internal FD for timeout */
+  unsigned int epoll_removed;      /**< Count of sockets removed from epfd; a
+                                        change tells coap_io_do_epoll_lkd() that
+                                        events collected earlier may refer to a
+                                        socket that no longer exists */
   coap_tick_t next_timeout;        /**< When the next timeout is to occur */
 #else /* ! COAP_EPOLL_SUPPORT */
 #if !defined(RIOT_VERSION) && !defined(WITH_CONTIKI)
